@@ -19,6 +19,21 @@ DEG_A = {"Gxx": (2, -1), "Gyy": (2, -1), "Gxy": (2, -1), "psd": (2, -1), "G": (2
          "XY_emp_dev": (2, 0), "XY_emp_var": (4, 0), "Gxx_emp_dev": (2, -1)}
 
 
+def _scale_dependent_guard(v, scales):
+    """first branch condition of the cell whose truth is not invariant under the scalings (d not homogeneous), or None."""
+    from ..values import _all_conds
+    for c in _all_conds(v):
+        ds = []
+        if getattr(c, "lt", None) is not None: ds.append(c.lt)
+        if getattr(c, "eq", None) is not None: ds.append(c.eq[1] - c.eq[2])
+        for d in ds:
+            if not any(at in sc for sc in scales for at in d.all_atoms()): continue
+            for sc in scales:
+                try: d.degree_in(sc)
+                except Unknown: return c
+    return None
+
+
 def check(ctx):
     T = Table(ctx.repo); ref = reference()
     ctx.analysed(GETATTR)
@@ -32,10 +47,6 @@ def check(ctx):
     for iscsd, table in ((True, DEG_X), (False, DEG_A)):
         for nm, want in table.items():
             construct = f"{GETATTR}[{nm}|{'cross' if iscsd else 'auto'}]"
-            v = generic(T.cell(nm, iscsd))
-            x = to_x(v) if not isinstance(v, PV) and not is_opaque(v) and v is not None and v is not ATTR_ERROR_V else None
-            if x is None:
-                ctx.unknown("R2-scaling", construct, f"no scalar normal form ({v!r})"[:200]); continue
             if iscsd:
                 scales = [{a("XX"): 2, a("XY"): 1, a("M2"): 2}, {a("YY"): 2, a("XY"): 1, a("M2"): 2}, {a("fs"): 1}]
             else:
@@ -45,6 +56,15 @@ def check(ctx):
                     if k.kind == "complex":
                         from ..symalg import conj_atom
                         sc[conj_atom(k)[0]] = sc[k]
+            raw = T.cell(nm, iscsd)
+            bad_guard = _scale_dependent_guard(raw, scales)
+            if bad_guard is not None:
+                ctx.violated("R2-scaling", construct, f"the guard [{bad_guard.text}] compares a quantity that scales with the data (or fs) against an absolute constant: rescaling the record "
+                             "switches the branch, so the value is not scale-covariant (tiny-amplitude records are forced onto the degenerate branch)"); continue
+            v = generic(raw)
+            x = to_x(v) if not isinstance(v, PV) and not is_opaque(v) and v is not None and v is not ATTR_ERROR_V else None
+            if x is None:
+                ctx.unknown("R2-scaling", construct, f"no scalar normal form ({v!r})"[:200]); continue
             try:
                 got = tuple(x.degree_in(sc) for sc in scales)
             except Unknown as ex:
